@@ -196,7 +196,7 @@ def run(tier, workers=None):
     jobs = []
     e1 = {"states": 0, "transitions": 0, "replays": 0}
     for cfg in cfgs:
-        res = explore.explore(lambda cfg=cfg: DavSys(cfg), max_depth=depth, workers=workers, keep_hist=True)
+        res = explore.explore(lambda cfg=cfg: DavSys(cfg), max_depth=depth, workers=workers, keep_hist=True, budget_s=None if tier == "quick" else 120)
         for e in res.errors:
             rep.harness_error(e[:1500])
         e1["states"] += res.states
